@@ -225,6 +225,13 @@ func (e *Engine) resolve() error {
 			}
 			g.InvExp = ex
 		}
+		if g.Rely != "" {
+			ex, err := ParseSpec(g.Rely)
+			if err != nil {
+				return fmt.Errorf("%s:%d: %v", g.File, g.Line, err)
+			}
+			g.RelyExp = ex
+		}
 		e.guards[g.Type] = g
 	}
 	for _, fc := range e.cf.Funcs {
